@@ -603,6 +603,20 @@ fn gen_statement(r: &mut Rng, ccy: &str, scale: u32, opening: i128, b: &Bias, co
     (Statement { balances, entries }, closing, consistent)
 }
 
+/// Subtract `by` (units of 1e-4) from the OPBD and CLBD balances of the statement; returns the new closing balance.
+fn shift_balances(st: &mut Statement, by: i128, scale: u32, ccy: &str) -> i128 {
+    let mut closing = 0;
+    for b in st.balances.iter_mut() {
+        let u = if b.credit { b.amt.v.units() } else { -b.amt.v.units() } - by;
+        b.amt = XAmt { v: dec_of_units(u.abs(), scale), ccy: ccy.to_string() };
+        b.credit = u >= 0;
+        if !b.opening {
+            closing = u;
+        }
+    }
+    closing
+}
+
 fn all_accounts_fresh(c: &Case) -> bool {
     c.stmts.iter().all(|s| s.entries.iter().all(|e| e.frag.account.as_deref() != Some(&c.cfg.account) && e.details.iter().all(|d| d.frag.account.as_deref() != Some(&c.cfg.account))))
 }
@@ -623,10 +637,17 @@ pub fn gen_case(r: &mut Rng, b: &Bias) -> Case {
         },
     };
     let mut counter = 0u32;
-    let opening = (r.range(-200_000, 10_000_000) as i128) * 10i128.pow(4 - scale);
+    // boundary balances: an opening balance of exactly zero (a new account: the "Initial Balance"
+    // transaction must still assert `= 0`), and a statement that ends at exactly zero
+    let zero_mode = r.below(8);
+    let opening = if zero_mode == 0 { 0 } else { (r.range(-200_000, 10_000_000) as i128) * 10i128.pow(4 - scale) };
     let mut stmts = Vec::new();
     let mut tag = String::from("consistent");
-    let (s1, closing1, ok1) = gen_statement(r, &ccy, scale, opening, b, &mut counter, has_operator);
+    let (mut s1, mut closing1, ok1) = gen_statement(r, &ccy, scale, opening, b, &mut counter, has_operator);
+    if zero_mode == 1 {
+        // shift both balances by the closing balance: the figures stay as (in)consistent as they were
+        closing1 = shift_balances(&mut s1, closing1, scale, &ccy);
+    }
     stmts.push(s1);
     let mut ok = ok1;
     if r.chance(b.two_stmt_pct, 100) {
